@@ -350,12 +350,9 @@ def exp_unary_scalar(table, f, z, rec):
         g = abs(RECIP[f](zm))
         if g > BIG or g < SMALL:
             zone, why = 'either', 'overflow'
-    if f == 'abs' and isinstance(z, complex):
-        s = abs(zm) ** 2
-        if s > BIG:
-            zone, why = 'either', 'overflow'
-        elif 0 < s < SMALL:
-            raise Discard('squares inside |z| underflow')
+    # abs of a complex scalar: |z| is representable whenever z is (hypot does not square), in both function
+    # tables - no allowance for overflow/underflow of re^2 + im^2 (a seeded change that routed complex scalars
+    # through norm(), returning abs(3e-180+4e-180i) = 0.0, was missed while this was in the "either" zone)
     ref, check = forward_checker(f, z, rec)
     if abs(ref) > BIG or 0 < abs(ref) < SMALL:
         zone, why = 'either', 'overflow'
